@@ -17,10 +17,18 @@
 (* StartedFix = FALSE reproduces the code before fix 1dde7cd (an empty     *)
 (* first chunk ends the STARTED state) and violates PrefixOfCanonical.     *)
 (* Real constants: W = 3, MA = 128, LB = 256 (LB >= MA + 2W + 1 is kept).  *)
+(* A full-utterance call (ProcessFull) computes its features in one batch  *)
+(* and ENLARGES the cepstrum ring to the length of the utterance (s.ma);   *)
+(* the ring stays enlarged for later, streaming utterances of the same     *)
+(* decoder.  CapFix = FALSE reproduces the code before the fix recorded in *)
+(* known_findings.json: a streaming call then puts more cepstra into the   *)
+(* ring than the live feature computation takes in one go, the process     *)
+(* loop stops when the samples are used up, and the end of the utterance   *)
+(* drains the ring only once - frames are lost (violates CompleteAtEnd).   *)
 (***************************************************************************)
 EXTENDS FeatStream, TLC
 
-CONSTANTS W, MA, LB, MaxCep, StartedFix
+CONSTANTS W, MA, LB, MaxCep, StartedFix, CapFix, MaxUtt
 VARIABLES s, hist          \* s: the record described above; hist: calls made (for counterexamples only)
 
 NONE == -1
@@ -28,7 +36,8 @@ Mod(a, b) == ((a % b) + b) % b
 
 Init == /\ s = [mfc |-> [i \in 0..(MA - 1) |-> NONE], outidx |-> 0, nmfc |-> 0,
                 cep |-> [i \in 0..(LB - 1) |-> NONE], bufpos |-> 0, curpos |-> 0,
-                feat |-> <<>>, featout |-> 0, nfeat |-> 0, state |-> "IDLE", next |-> 0, searched |-> <<>>, lost |-> FALSE]
+                feat |-> <<>>, featout |-> 0, nfeat |-> 0, state |-> "IDLE", next |-> 0, searched |-> <<>>, lost |-> FALSE,
+                ma |-> MA, feended |-> FALSE, nutt |-> 0]
         /\ hist = <<>>
 
 \* ---- feat_s2mfc2feat_live(x, begin, end): returns [st, used] -----------------------------------
@@ -59,9 +68,9 @@ FeatLive(st0, x0, begin, end0) ==
 
 \* ---- acmod_process_cep(at, c): consume c cepstra starting at ring slot `at' ------------------------
 ProcessCep(st, at, c) ==
-    LET xs == [i \in 1..c |-> st.mfc[(at + i - 1) % MA]]
+    LET xs == [i \in 1..c |-> st.mfc[(at + i - 1) % st.ma]]
         \* a read past the end of the ring would be out of bounds in C: flag it
-        oob == at + c > MA
+        oob == at + c > st.ma
         r == FeatLive(st, xs, st.state = "STARTED", st.state = "ENDED")
         nst == IF st.state = "STARTED" /\ (r.used > 0 \/ ~StartedFix) THEN "PROCESSING" ELSE st.state
     IN [st |-> [r.st EXCEPT !.state = nst, !.lost = @ \/ oob], used |-> r.used]
@@ -69,36 +78,38 @@ ProcessCep(st, at, c) ==
 \* ---- acmod_process_mfcbuf ------------------------------------------------------------------------
 ProcessMfcbuf(st) ==
     LET c == st.nmfc
-    IN IF st.outidx + c > MA
-       THEN LET c1 == MA - st.outidx
+    IN IF st.outidx + c > st.ma
+       THEN LET c1 == st.ma - st.outidx
                 saved == st.state
                 stA == IF saved = "ENDED" THEN [st EXCEPT !.state = "PROCESSING"] ELSE st
                 r1 == ProcessCep(stA, st.outidx, c1)
-                st1 == [r1.st EXCEPT !.nmfc = @ - r1.used, !.outidx = (@ + r1.used) % MA,
+                st1 == [r1.st EXCEPT !.nmfc = @ - r1.used, !.outidx = (@ + r1.used) % st.ma,
                                      !.state = IF saved = "ENDED" THEN saved ELSE r1.st.state]
                 c2 == c - r1.used
                 r2 == ProcessCep(st1, st1.outidx, c2)
-            IN [r2.st EXCEPT !.nmfc = @ - r2.used, !.outidx = (@ + r2.used) % MA]
+            IN [r2.st EXCEPT !.nmfc = @ - r2.used, !.outidx = (@ + r2.used) % st.ma]
        ELSE LET r == ProcessCep(st, st.outidx, c)
-            IN [r.st EXCEPT !.nmfc = @ - r.used, !.outidx = (@ + r.used) % MA]
+            IN [r.st EXCEPT !.nmfc = @ - r.used, !.outidx = (@ + r.used) % st.ma]
 
 \* ---- front end writes up to m cepstra of the call's remaining `avail' into the ring at slot `inp' ----
 RECURSIVE FeWrite(_, _, _)
 FeWrite(st, inp, k) == IF k = 0 THEN st
-                       ELSE FeWrite([st EXCEPT !.mfc[inp] = st.next, !.next = @ + 1, !.nmfc = @ + 1], (inp + 1) % MA, k - 1)
+                       ELSE FeWrite([st EXCEPT !.mfc[inp] = st.next, !.next = @ + 1, !.nmfc = @ + 1], (inp + 1) % st.ma, k - 1)
 
 \* acmod_process_raw for a call whose remaining samples make `avail' cepstra: returns [st, took]
 ProcessRaw(st, avail) ==
-    LET free == MA - st.nmfc
-        inp == (st.outidx + st.nmfc) % MA
-    IN IF inp + free > MA
+    LET room == st.ma - st.nmfc
+        \* the fix: never take in more per call than the ring held before any full-utterance call enlarged it
+        free == IF CapFix /\ room > MA THEN MA ELSE room
+        inp == (st.outidx + st.nmfc) % st.ma
+    IN IF inp + free > st.ma
        THEN \* two-part write: first up to the end of the ring
-            LET v1 == IF avail < MA - inp THEN avail ELSE MA - inp
+            LET v1 == IF avail < st.ma - inp THEN avail ELSE st.ma - inp
                 st1 == FeWrite(st, inp, v1)
             IN IF v1 = 0 THEN [st |-> ProcessMfcbuf(st1), took |-> 0]
                ELSE LET free2 == free - v1
                         v2 == IF avail - v1 < free2 THEN avail - v1 ELSE free2
-                        st2 == FeWrite(st1, (inp + v1) % MA, v2)
+                        st2 == FeWrite(st1, (inp + v1) % st.ma, v2)
                     IN [st |-> ProcessMfcbuf(st2), took |-> v1 + v2]
        ELSE LET v == IF avail < free THEN avail ELSE free
                 st1 == FeWrite(st, inp, v)
@@ -118,13 +129,27 @@ ProcLoop(st, avail, nosearch, first) ==
          IN IF r.took = 0 THEN st1                      \* no progress: the real loop would spin; stop
             ELSE ProcLoop(st1, avail - r.took, nosearch, FALSE)
 
-StartUtt == /\ s.state \in {"IDLE", "ENDED"}
+StartUtt == /\ s.state \in {"IDLE", "ENDED"} /\ s.nutt < MaxUtt
             /\ s' = [s EXCEPT !.state = "STARTED", !.nmfc = 0, !.outidx = 0, !.feat = <<>>, !.featout = 0, !.nfeat = 0,
-                              !.next = 0, !.searched = <<>>]
+                              !.next = 0, !.searched = <<>>, !.feended = FALSE, !.nutt = @ + 1]
             /\ hist' = Append(hist, <<"start">>)
 
+\* decoder_process_*(full_utt = TRUE) as the first call of an utterance whose audio makes n cepstra (the trailing
+\* frame of fe_end included): the ring is enlarged to n if smaller, every cepstrum is written from slot 0, the
+\* features are computed in one batch (the canonical windows by construction of that path), the front end is ended
+ProcessFull(n, nosearch) ==
+    /\ s.state = "STARTED" /\ s.next = 0 /\ n >= 1 /\ n <= MaxCep
+    /\ LET grown == s.ma < n
+           st0 == [s EXCEPT !.ma = IF grown THEN n ELSE @,
+                            !.mfc = IF grown THEN [i \in 0..(n - 1) |-> NONE] ELSE @, !.nmfc = 0, !.outidx = 0]
+           st1 == FeWrite(st0, 0, n)
+           st2 == [st1 EXCEPT !.nmfc = 0, !.feat = Canonical(W, n), !.featout = 0, !.nfeat = n, !.feended = TRUE,
+                              !.state = "PROCESSING"]
+       IN s' = IF nosearch THEN st2 ELSE Forward(st2)
+    /\ hist' = Append(hist, <<"full", n, nosearch>>)
+
 Process(c, nosearch) ==
-    /\ s.state \in {"STARTED", "PROCESSING"} /\ s.next + c <= MaxCep
+    /\ s.state \in {"STARTED", "PROCESSING"} /\ s.next + c <= MaxCep /\ ~s.feended
     /\ s' = ProcLoop(s, c, nosearch, TRUE)
     /\ hist' = Append(hist, <<"process", c, nosearch>>)
 
@@ -132,15 +157,17 @@ Process(c, nosearch) ==
 EndUtt(tail) ==
     /\ s.state \in {"STARTED", "PROCESSING"}
     /\ LET st0 == [s EXCEPT !.state = "ENDED"]
-           st1 == IF st0.nmfc < MA /\ tail = 1
-                  THEN ProcessMfcbuf(FeWrite(st0, (st0.outidx + st0.nmfc) % MA, 1))
+           st1 == IF st0.nmfc < st0.ma /\ tail = 1
+                  THEN ProcessMfcbuf(FeWrite(st0, (st0.outidx + st0.nmfc) % st0.ma, 1))
                   ELSE st0
        IN s' = Forward(st1)
     /\ hist' = Append(hist, <<"end", tail>>)
 
 DoProcess == \E c \in 0..MaxCep, ns \in BOOLEAN : Process(c, ns)
-DoEnd == \E tail \in {0, 1} : (tail = 1 <=> s.next > 0) /\ EndUtt(tail)     \* (fe_end always has a frame once samples came)
-Next == (StartUtt /\ s.state = "IDLE") \/ DoProcess \/ DoEnd
+DoFull == \E n \in 1..MaxCep, ns \in BOOLEAN : ProcessFull(n, ns)
+\* (fe_end always has a frame once samples came, unless a full-utterance call already took it)
+DoEnd == \E tail \in {0, 1} : (tail = 1 <=> (s.next > 0 /\ ~s.feended)) /\ EndUtt(tail)
+Next == StartUtt \/ DoProcess \/ DoFull \/ DoEnd
 Spec == Init /\ [][Next]_<<s, hist>>
 
 -----------------------------------------------------------------------------
@@ -154,7 +181,7 @@ SearchedAreWindows ==
         IN \A j \in 1..(2 * W + 1) :
               \/ win[j] = k - 1 - W + j - 1                                        \* the cepstrum itself
               \/ (k - 1 - W + j - 1 < 0 /\ win[j] = 0)                             \* first frame replicated
-              \/ (s.state = "ENDED" /\ k - 1 - W + j - 1 > s.next - 1 /\ win[j] = s.next - 1)   \* last frame replicated
+              \/ ((s.state = "ENDED" \/ s.feended) /\ k - 1 - W + j - 1 > s.next - 1 /\ win[j] = s.next - 1)   \* last frame replicated
 \* after the end of the utterance the search has seen exactly the canonical sequence
 CompleteAtEnd == s.state = "ENDED" => s.searched = Canonical(W, s.next)
 =============================================================================
